@@ -14,7 +14,7 @@ use std::collections::{BTreeMap, BTreeSet};
 use std::time::Duration;
 
 const REAL: &[&str] = &["libp2p_swarm::Swarm, Pool, pending/established connection tasks, Connection, ConcurrentDial", "multistream-select on every substream", "#[derive(NetworkBehaviour)] output + ConnectionHandlerSelect"];
-const STUB: &[&str] = &["transport + security + muxer -> SimTransport/SimMuxer (stub stack)", "executor -> simulator units", "clock/timers -> virtual", "behaviours -> probe behaviours/handlers"];
+const STUB: &[&str] = &["transport + security + muxer -> SimTransport/SimMuxer (stub stack) in the churn / churn-deny scenarios; in the *-full-stack scenarios only the byte pipe is simulated and multistream-select + noise + yamux/mplex are real", "executor -> simulator units", "clock/timers -> virtual", "behaviours -> probe behaviours/handlers"];
 
 pub fn checks() -> Vec<Check> {
     vec![
@@ -26,7 +26,7 @@ pub fn checks() -> Vec<Check> {
             assumptions: &["the simulated transport is reliable and ordered per connection; dial timeouts are the transport's job, so hanging dials are failed by the simulator when faults stop"],
             real: REAL,
             stub: STUB,
-            scenarios: vec![Scenario::new("churn", 1500, 150_000, churn)],
+            scenarios: vec![Scenario::new("churn", 1500, 150_000, churn), Scenario::new("churn-full-stack", 150, 15_000, churn_full)],
         },
         Check {
             id: "C02",
@@ -36,7 +36,7 @@ pub fn checks() -> Vec<Check> {
             assumptions: &["the Swarm returns at most one queued event per state change (verified by reading poll_next_event), so exact equality after every returned event is demanded"],
             real: REAL,
             stub: STUB,
-            scenarios: vec![Scenario::new("churn", 1500, 150_000, churn)],
+            scenarios: vec![Scenario::new("churn", 1500, 150_000, churn), Scenario::new("churn-full-stack", 150, 15_000, churn_full)],
         },
         Check {
             id: "C06",
@@ -46,7 +46,7 @@ pub fn checks() -> Vec<Check> {
             assumptions: &["denials are injected by the probe behaviours through the fault schedule"],
             real: REAL,
             stub: STUB,
-            scenarios: vec![Scenario::new("churn-deny", 1500, 150_000, churn_deny).profiles(&[Profile::Light, Profile::Heavy])],
+            scenarios: vec![Scenario::new("churn-deny", 1500, 150_000, churn_deny).profiles(&[Profile::Light, Profile::Heavy]), Scenario::new("churn-deny-full-stack", 150, 15_000, churn_deny_full).profiles(&[Profile::Light, Profile::Heavy])],
         },
         Check {
             id: "C58",
@@ -62,11 +62,20 @@ pub fn checks() -> Vec<Check> {
 }
 
 fn churn() -> SimResult {
-    run_churn(false)
+    run_churn(false, false)
 }
 
 fn churn_deny() -> SimResult {
-    run_churn(true)
+    run_churn(true, false)
+}
+
+/// The same workload over the real connection stack (multistream-select + noise + yamux/mplex on simulated pipes).
+fn churn_full() -> SimResult {
+    run_churn(false, true)
+}
+
+fn churn_deny_full() -> SimResult {
+    run_churn(true, true)
 }
 
 pub struct World {
@@ -76,9 +85,15 @@ pub struct World {
     pub union_checks: Vec<(usize, ConnectionId, Vec<Multiaddr>)>,
 }
 
-fn run_churn(deny_focus: bool) -> SimResult {
+fn run_churn(deny_focus: bool, full: bool) -> SimResult {
     begin();
+    crate::full::reset(profile() != Profile::None);
     draw_policy();
+    let mux = if choose(2) == 0 { crate::full::Mux::Yamux } else { crate::full::Mux::Mplex };
+    let lazy = choose(3) == 0;
+    if full {
+        note_val("stack", (mux == crate::full::Mux::Yamux) as u64 + 2 * lazy as u64);
+    }
     let n = 2 + choose(4);
     note_val("nodes", n as u64);
     let (dslot, dpoint) = (choose(3), choose(4));
@@ -96,7 +111,11 @@ fn run_churn(deny_focus: bool) -> SimResult {
                 c.deny[p] = if deny_focus && k == dslot && p == dpoint { [300u32, 600, 900][choose(3)] } else if choose(6) == 0 { 40 } else { 0 };
             }
         }
-        nodes.push(Node::new(probe_composite(cfgs), &knobs, None));
+        if full {
+            nodes.push(Node::new_on(|idx, key| crate::full::full_transport(idx, key, mux, lazy), probe_composite(cfgs), &knobs, None));
+        } else {
+            nodes.push(Node::new(probe_composite(cfgs), &knobs, None));
+        }
     }
     let addrs: Vec<Multiaddr> = nodes.iter().map(|nd| nd.listen()).collect();
     let peers: Vec<PeerId> = nodes.iter().map(|nd| nd.peer).collect();
@@ -188,11 +207,16 @@ fn run_churn(deny_focus: bool) -> SimResult {
                 format!("n{a}.p{}.Close({})", k + 1, if all { "All".to_string() } else { format!("One({id})") })
             }
             10 => {
-                if profile() == Profile::None || net::conn_count() == 0 {
+                let count = if full { crate::full::pipe_count() } else { net::conn_count() };
+                if profile() == Profile::None || count == 0 {
                     continue;
                 }
-                let c = choose(net::conn_count());
-                net::reset_conn(c);
+                let c = choose(count);
+                if full {
+                    crate::full::reset_pipe(c);
+                } else {
+                    net::reset_conn(c);
+                }
                 fired("conn_reset");
                 format!("reset conn {c}")
             }
@@ -254,6 +278,13 @@ fn run_churn(deny_focus: bool) -> SimResult {
     }
     let total_events: usize = w.nodes.iter().map(|n| n.events.borrow().len()).sum();
     set_sample(|| format!("{n} nodes, ops: {}; {} swarm events, {} physical connections", sample.join("; "), total_events, net::conn_count()));
+    if full {
+        let est: usize = w.nodes.iter().map(|n| n.model.borrow().ever_established.len()).sum();
+        if est > 0 {
+            probe("full-stack-connection-established");
+        }
+        note_val("full_established", est.min(30) as u64);
+    }
     if violated() {
         return Ok(()); // recorded as soft violations
     }
